@@ -122,7 +122,16 @@ class InterpCore(object):
                 return ModV(name)
             return None
         if isinstance(r, FuncInfo):
-            return FuncV(r)
+            fv = FuncV(r)
+            if r.cls is None and r.node.decorator_list:
+                denv = Env(module=r.module, label=r.module.name)
+                self.stack.append(denv)
+                try:
+                    for d in reversed(r.node.decorator_list):
+                        fv = self.call(self.eval(d, denv), [fv], {}, r.node, denv)
+                finally:
+                    self.stack.pop()
+            return fv
         if isinstance(r, ClassInfo):
             return ClassV(r)
         if isinstance(r, Module):
